@@ -740,6 +740,12 @@ impl<'a> Run<'a> {
         let mut existing: Option<Nid> = None;
         match self.model.resolve(start, path) {
             Resolved::Err(e) => errs.push(e),
+            // a name that is not acceptable is refused whatever the directory holds (an over-long name may still equal an
+            // existing one: a foreign entry of 255 units but more than 255 bytes, or under case folding)
+            Resolved::At(_, name) if !name_errors(&name).is_empty() => {
+                errs = name_errors(&name);
+                self.trace.hit("invalid_name");
+            }
             Resolved::At(parent, name) => match self.model.lookup(parent, &name) {
                 Some(n) => {
                     if self.model.node(n).is_dir() != dir {
@@ -1045,6 +1051,10 @@ impl<'a> Run<'a> {
         }
         match &dres {
             Resolved::Err(e) => errs.push(*e),
+            Resolved::At(_, dname) if !name_errors(dname).is_empty() => {
+                errs.extend(name_errors(dname));
+                self.trace.hit("invalid_name");
+            }
             Resolved::At(dp, dname) => {
                 match self.model.lookup(*dp, dname) {
                     Some(existing) => {
